@@ -345,6 +345,19 @@ pub trait Int:
     fn k_small(i: usize) -> Self; // ZERO..TEN
 
     common_methods!(decl);
+
+    // num_traits entry points (anchored by C18 / C19) used by the `siblings` parts of the topic checks
+    fn nt_from_str_radix(s: &str, radix: u32) -> Result<Self, ParseIntError>;
+    /// ToPrimitive::to_{u8, u16, u32, u64, u128, usize, i8, i16, i32, i64, i128, isize} as reference integers
+    fn nt_to_ints(&self) -> Vec<Option<Z>>;
+    /// ToPrimitive::to_f32 / to_f64 as bit patterns
+    fn nt_to_floats(&self) -> (Option<u32>, Option<u64>);
+    fn nt_from_u64(v: u64) -> Option<Self>;
+    fn nt_from_i64(v: i64) -> Option<Self>;
+    fn nt_from_u128(v: u128) -> Option<Self>;
+    fn nt_from_i128(v: i128) -> Option<Self>;
+    fn nt_from_f32(v: f32) -> Option<Self>;
+    fn nt_from_f64(v: f64) -> Option<Self>;
 }
 
 pub trait UInt: Int + Add<<Self as Int>::D, Output = Self> + Div<<Self as Int>::D, Output = Self> + Rem<<Self as Int>::D, Output = <Self as Int>::D> {
@@ -361,6 +374,11 @@ pub trait UInt: Int + Add<<Self as Int>::D, Output = Self> + Div<<Self as Int>::
 
 pub trait SInt: Int + Neg<Output = Self> {
     fn k_neg_small(i: usize) -> Self; // NEG_ONE..NEG_TEN for i = 1..=10
+    // num_traits::Signed entry points (anchored by C18)
+    fn nt_signum(&self) -> Self;
+    fn nt_abs(&self) -> Self;
+    fn nt_is_positive(&self) -> bool;
+    fn nt_is_negative(&self) -> bool;
     sint_methods!(decl);
 }
 
@@ -397,6 +415,26 @@ macro_rules! impl_family {
                 [Self::ZERO, Self::ONE, Self::TWO, Self::THREE, Self::FOUR, Self::FIVE, Self::SIX, Self::SEVEN, Self::EIGHT, Self::NINE, Self::TEN][i]
             }
             common_methods!(imp bnum::$BUint<N>);
+
+            fn nt_from_str_radix(s: &str, radix: u32) -> Result<Self, ParseIntError> { <Self as num_traits::Num>::from_str_radix(s, radix) }
+            fn nt_to_ints(&self) -> Vec<Option<Z>> {
+                use num_traits::ToPrimitive as TP;
+                vec![
+                    TP::to_u8(self).map(|v| Z::from_u128(v as u128)), TP::to_u16(self).map(|v| Z::from_u128(v as u128)), TP::to_u32(self).map(|v| Z::from_u128(v as u128)),
+                    TP::to_u64(self).map(|v| Z::from_u128(v as u128)), TP::to_u128(self).map(Z::from_u128), TP::to_usize(self).map(|v| Z::from_u128(v as u128)),
+                    TP::to_i8(self).map(|v| Z::from_i128(v as i128)), TP::to_i16(self).map(|v| Z::from_i128(v as i128)), TP::to_i32(self).map(|v| Z::from_i128(v as i128)),
+                    TP::to_i64(self).map(|v| Z::from_i128(v as i128)), TP::to_i128(self).map(Z::from_i128), TP::to_isize(self).map(|v| Z::from_i128(v as i128)),
+                ]
+            }
+            fn nt_to_floats(&self) -> (Option<u32>, Option<u64>) {
+                (num_traits::ToPrimitive::to_f32(self).map(f32::to_bits), num_traits::ToPrimitive::to_f64(self).map(f64::to_bits))
+            }
+            fn nt_from_u64(v: u64) -> Option<Self> { <Self as num_traits::FromPrimitive>::from_u64(v) }
+            fn nt_from_i64(v: i64) -> Option<Self> { <Self as num_traits::FromPrimitive>::from_i64(v) }
+            fn nt_from_u128(v: u128) -> Option<Self> { <Self as num_traits::FromPrimitive>::from_u128(v) }
+            fn nt_from_i128(v: i128) -> Option<Self> { <Self as num_traits::FromPrimitive>::from_i128(v) }
+            fn nt_from_f32(v: f32) -> Option<Self> { <Self as num_traits::FromPrimitive>::from_f32(v) }
+            fn nt_from_f64(v: f64) -> Option<Self> { <Self as num_traits::FromPrimitive>::from_f64(v) }
         }
         impl<const N: usize> UInt for bnum::$BUint<N> {
             fn from_digits_arr(p: &[u8]) -> Self {
@@ -451,12 +489,36 @@ macro_rules! impl_family {
                 [Self::ZERO, Self::ONE, Self::TWO, Self::THREE, Self::FOUR, Self::FIVE, Self::SIX, Self::SEVEN, Self::EIGHT, Self::NINE, Self::TEN][i]
             }
             common_methods!(imp bnum::$BInt<N>);
+
+            fn nt_from_str_radix(s: &str, radix: u32) -> Result<Self, ParseIntError> { <Self as num_traits::Num>::from_str_radix(s, radix) }
+            fn nt_to_ints(&self) -> Vec<Option<Z>> {
+                use num_traits::ToPrimitive as TP;
+                vec![
+                    TP::to_u8(self).map(|v| Z::from_u128(v as u128)), TP::to_u16(self).map(|v| Z::from_u128(v as u128)), TP::to_u32(self).map(|v| Z::from_u128(v as u128)),
+                    TP::to_u64(self).map(|v| Z::from_u128(v as u128)), TP::to_u128(self).map(Z::from_u128), TP::to_usize(self).map(|v| Z::from_u128(v as u128)),
+                    TP::to_i8(self).map(|v| Z::from_i128(v as i128)), TP::to_i16(self).map(|v| Z::from_i128(v as i128)), TP::to_i32(self).map(|v| Z::from_i128(v as i128)),
+                    TP::to_i64(self).map(|v| Z::from_i128(v as i128)), TP::to_i128(self).map(Z::from_i128), TP::to_isize(self).map(|v| Z::from_i128(v as i128)),
+                ]
+            }
+            fn nt_to_floats(&self) -> (Option<u32>, Option<u64>) {
+                (num_traits::ToPrimitive::to_f32(self).map(f32::to_bits), num_traits::ToPrimitive::to_f64(self).map(f64::to_bits))
+            }
+            fn nt_from_u64(v: u64) -> Option<Self> { <Self as num_traits::FromPrimitive>::from_u64(v) }
+            fn nt_from_i64(v: i64) -> Option<Self> { <Self as num_traits::FromPrimitive>::from_i64(v) }
+            fn nt_from_u128(v: u128) -> Option<Self> { <Self as num_traits::FromPrimitive>::from_u128(v) }
+            fn nt_from_i128(v: i128) -> Option<Self> { <Self as num_traits::FromPrimitive>::from_i128(v) }
+            fn nt_from_f32(v: f32) -> Option<Self> { <Self as num_traits::FromPrimitive>::from_f32(v) }
+            fn nt_from_f64(v: f64) -> Option<Self> { <Self as num_traits::FromPrimitive>::from_f64(v) }
         }
         impl<const N: usize> SInt for bnum::$BInt<N> {
             fn k_neg_small(i: usize) -> Self {
                 [Self::ZERO, Self::NEG_ONE, Self::NEG_TWO, Self::NEG_THREE, Self::NEG_FOUR, Self::NEG_FIVE, Self::NEG_SIX, Self::NEG_SEVEN, Self::NEG_EIGHT, Self::NEG_NINE, Self::NEG_TEN][i]
             }
             sint_methods!(imp bnum::$BInt<N>);
+            fn nt_signum(&self) -> Self { num_traits::Signed::signum(self) }
+            fn nt_abs(&self) -> Self { num_traits::Signed::abs(self) }
+            fn nt_is_positive(&self) -> bool { num_traits::Signed::is_positive(self) }
+            fn nt_is_negative(&self) -> bool { num_traits::Signed::is_negative(self) }
         }
     };
 }
